@@ -264,7 +264,7 @@ func (m *c10Model) checkLookups() {
 				} else if m.verdict(p.c, pos, id, "", m.shape(p.k, withVer), fmt.Sprintf("%s of the kind text %s", fi.Name(), shown)) {
 					r.OK(p.c, pos, "%s(%s) = (%s, nil), the %s id; Type() maps it back to %s", fi.Name(), shown, id.V, p.k.Name, p.k.TypeConst)
 				}
-			case err.K == c10VErr:
+			case c10NonNilError(err):
 				r.OK(p.c, pos, "%s(%s) returns a non-nil error: %s holds no such kind", fi.Name(), shown, packed)
 			case err.K == c10VNil:
 				r.Bad(p.c, pos, "%s(%s) returns (%s, nil): text naming a kind that %s cannot hold yields an id instead of an error", fi.Name(), shown, id, packed)
